@@ -2,6 +2,7 @@ import RTA.Lemmas.SupplyFifo
 import RTA.Lemmas.TimerSound
 import RTA.Lemmas.TimerSoundExample
 import RTA.Lemmas.ChainSound
+import RTA.Lemmas.ExecRefine
 import RTA.Spec.Ros2Exec
 /-! # C04 — the ECRTS'19 ROS 2 analyses are safe under reservation supply
 
@@ -17,9 +18,11 @@ compliant arrival sequences and all execution times up to the WCET:
   analysed callback start in release order.  Everything else about the executor (polling
   points, ready set, order among the other callbacks) is arbitrary.
 The executor itself is also specified as a labelled transition system
-(`RTA/Spec/Ros2Exec.lean`); that its runs satisfy the schedule-level Spec is checked on
-every run by executing it (`vlib/ros_sim.py: check_timer_legal`, cross-checked against the
-Lean LTS by the driver op `exec`), not proved.
+(`RTA/Spec/Ros2Exec.lean`); `executor_runs_are_timer_legal` (and `C05.executor_runs_are_legal`)
+prove that EVERY run of it (without chains) satisfies the schedule-level Specs, so the timer and
+polling-point theorems hold for the transition system itself (`timer_safe_lts`,
+`polling_point_safe_lts`).  For chains the schedule-level Spec is checked on every run by
+executing the model (`vlib/ros_sim.py: check_timer_legal`), not proved.
 * the **processing-chain** analysis (`chain_safe`): every callback instance is attributed the
   arrival time of its chain instance; the analysis is the polling-point analysis of the last
   callback with the chain prefix and the other chains as interference (scalar WCETs, one
@@ -185,6 +188,63 @@ theorem timer_safe_nonvacuous :
       (∀ k, k < exSys.n → ¬ Rel exSys 1 (fun k => k = 0) k → exSys.cost k ≤ 1 + 1) ∧
       MeetsBound exSys 0 R ∧ ¬ MeetsBound exSys 0 6 :=
   ⟨exSys_legal, exSigma_compliant, timer_sound_nonvacuous⟩
+
+/-- refinement: every run of the executor transition system (no chains) satisfies the timer
+Spec for every timer whose priority value is shared by no other timer -/
+theorem executor_runs_are_timer_legal (cbs : List Exec.Cb) (sigma : ℕ → Bool) (rels : ℕ → List ℕ) (H i : ℕ)
+    (hi : i < cbs.length) (hti : (cbs.getD i default).isTimer = true)
+    (hidx : ∀ t, ∀ i ∈ rels t, i < cbs.length) (hfin : ∀ t, H ≤ t → rels t = [])
+    (hcost : ∀ c ∈ cbs, 1 ≤ c.cost)
+    (hdist : ∀ k, k < cbs.length → k ≠ i → (cbs.getD k default).isTimer = true →
+      (cbs.getD k default).prio ≠ (cbs.getD i default).prio) :
+    SupplyTimerLegal (Exec.toSys cbs sigma rels H) sigma i
+      (fun k => (cbs.getD k default).isTimer = true ∧ (cbs.getD k default).prio < (cbs.getD i default).prio) :=
+  Exec.run_timer_legal cbs sigma rels H i hi hti hidx hfin hcost hdist
+
+/-- C04, timer, over the transition system itself: in every run, every instance of the analysed
+timer has received its full service within `R` of its release -/
+theorem timer_safe_lts (cbs : List Exec.Cb) (sigma : ℕ → Bool) (rels : ℕ → List ℕ) (H i : ℕ)
+    (hi : i < cbs.length) (hti : (cbs.getD i default).isTimer = true)
+    (hidx : ∀ t, ∀ i ∈ rels t, i < cbs.length) (hfin : ∀ t, H ≤ t → rels t = [])
+    (hcb : ∀ c ∈ cbs, 1 ≤ c.cost)
+    (hdist : ∀ k, k < cbs.length → k ≠ i → (cbs.getD k default).isTimer = true →
+      (cbs.getD k default).prio ≠ (cbs.getD i default).prio)
+    (sup : Supply) (hs : sup.WF) (hsbf : ∀ t d, sup.sbf d ≤ service sigma t d)
+    (a : Arr) (C : ℕ) (hwf : a.WF) (hex : a.Exact) (hC : 1 ≤ C)
+    (interf : RB) (hwfi : interf.ArrWF) (hexi : interf.Exact) (B : ℕ)
+    (hN : ∀ t d, countOf (Exec.toSys cbs sigma rels H) i t (t + d) ≤ a.N d)
+    (hcost : ∀ k < (Exec.toSys cbs sigma rels H).n, (Exec.toSys cbs sigma rels H).task k = i →
+      (Exec.toSys cbs sigma rels H).cost k ≤ C)
+    (hhp : ∀ t d, workOf (Exec.toSys cbs sigma rels H)
+      (fun k => (cbs.getD k default).isTimer = true ∧ (cbs.getD k default).prio < (cbs.getD i default).prio)
+      t (t + d) ≤ interf.need d)
+    (hB : ∀ k < (Exec.toSys cbs sigma rels H).n,
+      ¬ Rel (Exec.toSys cbs sigma rels H) i
+        (fun k => (cbs.getD k default).isTimer = true ∧ (cbs.getD k default).prio < (cbs.getD i default).prio) k →
+      (Exec.toSys cbs sigma rels H).cost k ≤ B + 1)
+    (limit R : ℕ) (hR : rosTimer sup (.rbf a (.scalar C)) interf B limit = .ok R) :
+    ∀ j, j < (Exec.toSys cbs sigma rels H).n → (Exec.toSys cbs sigma rels H).task j = i →
+      MeetsBound (Exec.toSys cbs sigma rels H) j R :=
+  timer_sound _ sigma i _ (Exec.run_timer_legal cbs sigma rels H i hi hti hidx hfin hcb hdist)
+    (fun h => Nat.lt_irrefl _ h.2) sup hs hsbf a C hwf hex hC interf hwfi hexi B hN hcost hhp hB limit R hR
+
+/-- C04, polling-point callback, over the transition system itself -/
+theorem polling_point_safe_lts (cbs : List Exec.Cb) (sigma : ℕ → Bool) (rels : ℕ → List ℕ) (H i : ℕ)
+    (hidx : ∀ t, ∀ i ∈ rels t, i < cbs.length) (hfin : ∀ t, H ≤ t → rels t = [])
+    (hcb : ∀ c ∈ cbs, 1 ≤ c.cost)
+    (sup : Supply) (hs : sup.WF) (hsbf : ∀ t d, sup.sbf d ≤ service sigma t d)
+    (a : Arr) (C : ℕ) (hwf : a.WF) (hex : a.Exact) (hC : 1 ≤ C)
+    (interf : RB) (hwfi : interf.ArrWF) (hexi : interf.Exact)
+    (hN : ∀ t d, countOf (Exec.toSys cbs sigma rels H) i t (t + d) ≤ a.N d)
+    (hcost : ∀ k < (Exec.toSys cbs sigma rels H).n, (Exec.toSys cbs sigma rels H).task k = i →
+      (Exec.toSys cbs sigma rels H).cost k ≤ C)
+    (hint : ∀ t d, workOf (Exec.toSys cbs sigma rels H) (fun k => k ≠ i) t (t + d) ≤ interf.need d)
+    (limit R : ℕ) (hR : rosPollingPoint sup (.rbf a (.scalar C)) interf limit = .ok R) :
+    ∀ j, j < (Exec.toSys cbs sigma rels H).n → (Exec.toSys cbs sigma rels H).task j = i →
+      MeetsBound (Exec.toSys cbs sigma rels H) j R :=
+  pollingPoint_sound _ sigma i
+    (RrSoundLemmas.toTimer (Exec.run_polling_legal cbs sigma rels H hidx hfin hcb) i)
+    sup hs hsbf a C hwf hex hC interf hwfi hexi hN hcost hint limit R hR
 
 /-- response times observed in a run of the executor model: every completed instance of
 callback `i` finished within `R` of its release -/
